@@ -41,13 +41,23 @@ T3Defs == <<1, 0, 0, 0, 0, 0, 0, 0, 0, 1, 1, 1, 1, 1, 1, 1, 1, 1, 0, 1>>
 T3Cont(c, g) == IF c = 1 THEN [defs |-> [i \in 1..20 |-> 0], reps |-> [i \in 1..20 |-> 0], vals |-> [i \in 1..20 |-> Tk(1, 0, (i \div 3) + Seed + g)]]
              ELSE [defs |-> T3Defs, reps |-> [i \in 1..20 |-> 0], vals |-> [i \in 1..11 |-> Tk(6, 0, (i % 4) + Seed + g)]]
 
-Elems(t) == CASE t = 1 -> T1Elems [] t = 2 -> T2Elems [] t = 3 -> T3Elems
-Leaves(t) == CASE t = 1 -> T1Leaves [] t = 2 -> T2Leaves [] t = 3 -> T3Leaves
-Cont(t, c, g) == CASE t = 1 -> T1Cont(c, g) [] t = 2 -> T2Cont(c, g) [] t = 3 -> T3Cont(c, g)
-NRows(t) == CASE t = 1 -> 5 [] t = 2 -> 4 [] t = 3 -> 20
+\* ---- table 4: maximum levels that are exact powers of two (level bit widths 2 and 3), repetition depth 2
+\* o: OPTIONAL group { p: OPTIONAL INT32 } ; a: REPEATED group { b: REPEATED group { q: OPTIONAL group { z: OPTIONAL INT64 } } }
+\* rows: o.p = 7 ; o = {p: null} ; o = null.   a = [{b:[{q:{z:1}}, {q:null}]}, {b:[]}] ; [] ; [{b:[{q:{z:null}}, {q:{z:5}}]}]
+T4Elems == << Root(2), Group(<<111>>, 1, 1), Leaf(<<112>>, 1, 1, 0),
+              Group(<<97>>, 2, 1), Group(<<98>>, 2, 1), Group(<<113>>, 1, 1), Leaf(<<122>>, 2, 1, 0) >>
+T4Leaves == << LeafRec(1, 0, 2, 0, <<<<111>>, <<112>>>>), LeafRec(2, 0, 4, 2, <<<<97>>, <<98>>, <<113>>, <<122>>>>) >>
+T4Cont(c, g) == IF c = 1 THEN [defs |-> <<2, 1, 0>>, reps |-> <<0, 0, 0>>, vals |-> <<Tk(1, 0, 3 + Seed + g)>>]
+                ELSE [defs |-> <<4, 2, 1, 0, 3, 4>>, reps |-> <<0, 2, 1, 0, 0, 2>>, vals |-> <<Tk(2, 0, 1 + Seed + g), Tk(2, 0, 5 + Seed)>>]
+
+Elems(t) == CASE t = 1 -> T1Elems [] t = 2 -> T2Elems [] t = 3 -> T3Elems [] t = 4 -> T4Elems
+Leaves(t) == CASE t = 1 -> T1Leaves [] t = 2 -> T2Leaves [] t = 3 -> T3Leaves [] t = 4 -> T4Leaves
+Cont(t, c, g) == CASE t = 1 -> T1Cont(c, g) [] t = 2 -> T2Cont(c, g) [] t = 3 -> T3Cont(c, g) [] t = 4 -> T4Cont(c, g)
+NRows(t) == CASE t = 1 -> 5 [] t = 2 -> 4 [] t = 3 -> 20 [] t = 4 -> 3
 Cuts(t, c, np) == LET n == Len(Cont(t, c, 1).defs)
                   IN IF np = 1 THEN <<n>>
                      ELSE IF t = 2 THEN T2Cut(c)
+                     ELSE IF t = 4 THEN (IF c = 1 THEN <<1, 3>> ELSE <<3, 6>>)
                      ELSE IF np = 2 THEN <<n \div 2, n>> ELSE <<1, n \div 2, n - 1, n>>
 
 Styles == {"rle", "bp", "bp1", "mix", "zero", "pad1"}
